@@ -106,7 +106,10 @@ static enum websocket_callback_return pong_received(struct websocket *s, uint8_t
 {
 	char buffer[50];
 	size_t len = MIN(sizeof(buffer), length);
-	memcpy(buffer, msg, len);
+	if (length > 0) {
+		/* An empty payload is handed over as (NULL, 0). */
+		memcpy(buffer, msg, len);
+	}
 	if (len < sizeof(buffer)) {
 		buffer[len] = '\0';
 	} else {
